@@ -89,6 +89,11 @@ def run (op : String) (a : Json) : Option (Except String Json) :=
         | .ok b => ok (jBool b)
         | .keyError => err "KeyError"
         | .fuel => Proto.jObj [("fail", Json.str "model fuel exhausted")]
+  | "names.resolve_conflict" => some do
+      let ts ← (← getArr a "target").mapM getAttr
+      let bs ← (← getArr a "base").mapM getAttr
+      let r := resolveConflict ts bs (← getNat a "child")
+      pure <| ok (jList (jList jStr) [r.1.map (·.name), r.2.map (·.name)])
   | "names.rename_inners" => some do
       let ns ← getStrs a "names"
       pure <| ok (jList jStr (renameInners ns []))
